@@ -13,7 +13,10 @@ for f in sys.argv[1:] or [os.path.join(V, 'seeded', 'results_final.txt')]:
         short = []
         for n in names[:2]:
             n = re.sub(r'^_p?github_com_anyproto_any_sync_', '', n)
-            short.append(n[-70:])
+            m2 = re.search(r'([A-Za-z0-9$]+(?:_[A-Za-z0-9$]+)?)__((?:ensures|loop\d+|nil|index|call|slice|cover|type|int|make|div|explicit)_.*)$', n)
+            if m2:
+                n = m2.group(1).lstrip('_') + ': ' + m2.group(2)
+            short.append(n[-90:])
         key = (pid, int(k))
         if verdict == 'DETECTED' or key not in res or res[key][0] != 'DETECTED':
             res[key] = (verdict, chk or pid, short)
